@@ -364,6 +364,7 @@ fn logical_cases(seed: u64, tier: Tier) -> Vec<Logical> {
 
 pub fn run(rep: &'static Report) {
     rep.set_rule("E-PROC product: every logical case (valid and invalid inputs, keyrings with the sender first/last/absent and decoy entries sharing 24-character prefixes/suffixes of the sender's key and prefix/extension/case variants of the names) x the full product of wirings {file argument | stdin} x {-o | stdout} x {-k | KESTREL_KEYRING} x {long | short options} x {command | alias} x {options before | after the positional}: 64 per keyring command, 32 per password command. Each run is checked against the CLI reference model (exit status, plaintext bytes, REF-validity of produced files, sender line) and all wirings of one logical case must yield the same outcome. distinct non-trivial = distinct (logical case, wiring) runs");
+    rep.rule_add("per logical case the extra wirings size-limited output, pre-existing output, FIFO input, alias-named FILE, 5 pseudo-terminal wirings, decoy environment, stdout=/dev/full, stdout=closed pipe, stdin in pieces.");
     rep.assume("terminal-attached branches are exercised through a pseudo-terminal (password typed at a controlling terminal or at a terminal stdin); a real terminal emulator is not involved");
     let cases = logical_cases(rep.seed, rep.tier);
     let mut jobs = vec![];
@@ -483,6 +484,11 @@ pub fn run(rep: &'static Report) {
         for nm in ["alias-named-file/dec", "alias-named-file/enc", "alias-named-file/pass", "alias-named-file/gen", "alias-named-file/decrypt"] {
             xjobs.push((ci, nm));
         }
+        // the password comes from the environment (--env-pass) while stdin is a terminal: the outcome is that of the
+        // non-interactive run (in particular a wrong password ends the run with exit 1; nothing can be re-asked)
+        if cases[ci].password.is_some() {
+            xjobs.push((ci, "env-pass-at-a-terminal"));
+        }
         // interactive wirings: the password is typed at a (pseudo-)terminal instead of coming from the environment
         if cases[ci].password.is_some() && !cases[ci].name.contains("wrong-password") {
             for k in ["tty-controlling/file/-o", "tty-controlling/stdin-pipe/stdout-pipe", "tty-is-stdin/file/-o", "tty-is-stdin/file/stdout-pipe", "tty-is-stdin-and-stdout/file/-o"] {
@@ -529,6 +535,9 @@ pub fn run(rep: &'static Report) {
                 let dkr = format!("{}\n{}\n", proc::keyring_entry("alice", &da.pk_enc, Some(&da.locked)), proc::keyring_entry("bob", &db.pk_enc, Some(&db.locked)));
                 files.push(("decoy-keyring.txt".to_string(), dkr.into_bytes()));
                 cmd = cmd.env("KESTREL_NEW_PASSWORD", "decoy-new-password").env("KESTREL_KEYRING", "decoy-keyring.txt");
+            }
+            if kind == "env-pass-at-a-terminal" {
+                cmd.pty = Some(proc::PtySpec { typed: vec![], controlling: false, stdin_is_tty: true, stdout_is_tty: false });
             }
             if tty {
                 cmd.args.retain(|a| a != b"--env-pass");
@@ -588,13 +597,13 @@ pub fn run(rep: &'static Report) {
             } else {
                 None
             };
-            let out = proc::run(&cmd, &sc.0);
+            let out = if kind == "env-pass-at-a-terminal" { proc::run_limit(&cmd, &sc.0, std::time::Duration::from_secs(12)) } else { proc::run(&cmd, &sc.0) };
             if let Some(f) = feeder {
                 let _ = f.join();
             }
             out.well_behaved()?;
             if out.ok() != should_succeed {
-                return Err(format!("exit status {} but the operation {} when {}", if out.ok() { 0 } else { 1 }, if should_succeed { "should complete" } else { "cannot complete" }, match kind { "stdout-dev-full" => "stdout is /dev/full".to_string(), "stdout-closed-pipe" => "stdout is a pipe whose reader is gone".to_string(), "stdin-in-pieces" => "the input arrives on a stdin pipe in pieces".to_string(), "fifo-input" => "the FILE argument is a named pipe carrying the same bytes".to_string(), "preexisting-output" => "the output path already holds a longer file".to_string(), "decoy-environment" => "KESTREL_NEW_PASSWORD and (next to -k) KESTREL_KEYRING are set to decoys".to_string(), k if k.starts_with("alias-named-file/") => format!("the input file is named '{}'", &k[17..]), k => format!("the password is typed at a terminal ({})", k) }));
+                return Err(format!("exit status {} but the operation {} when {}", if out.ok() { 0 } else { 1 }, if should_succeed { "should complete" } else { "cannot complete" }, match kind { "stdout-dev-full" => "stdout is /dev/full".to_string(), "stdout-closed-pipe" => "stdout is a pipe whose reader is gone".to_string(), "stdin-in-pieces" => "the input arrives on a stdin pipe in pieces".to_string(), "fifo-input" => "the FILE argument is a named pipe carrying the same bytes".to_string(), "preexisting-output" => "the output path already holds a longer file".to_string(), "decoy-environment" => "KESTREL_NEW_PASSWORD and (next to -k) KESTREL_KEYRING are set to decoys".to_string(), "env-pass-at-a-terminal" => "the password comes from the environment while stdin is a terminal".to_string(), k if k.starts_with("alias-named-file/") => format!("the input file is named '{}'", &k[17..]), k => format!("the password is typed at a terminal ({})", k) }));
             }
             if out.ok() && !failing_stdout {
                 let data = if w.stdout_output { out.stdout.clone() } else { sc.read("out.bin").ok_or("exit 0 but no output file")? };
